@@ -148,7 +148,7 @@ static void errors_case(Case& c) {
             // reproduce add_treatment's bookkeeping through the public API
             unsigned a = 0, b = 0;
             std::string e = err_kind([&] { Treatments<Pool, DRaster> tr(s); tr.add_treatment(DRaster(1, 1, 0.5), d, days, TreatmentApplication::Ratio);
-                                           a = s.schedule_action_date(d); Date de(d); de.add_days((unsigned)days); b = days ? s.schedule_action_date(de) : a; });
+                                           a = s.schedule_action_date(d); int ey, em, ed; ::verif::civil_add_days(d.year(), d.month(), d.day(), days, ey, em, ed); Date de(ey, em, ed); b = days ? s.schedule_action_date(de) : a; });
             out << "err.addtreat " << k;
             for (unsigned i = 0; i < k; i++) out << " " << ds(s.get_step(i).start_date()) << " " << ds(s.get_step(i).end_date());
             out << " " << ds(d) << " " << days << " => " << (e.empty() ? "ok " + std::to_string(a) + " " + std::to_string(b) : e) << "\n";
